@@ -1,4 +1,5 @@
 import JediModel.Model.Call
+set_option linter.unusedSimpArgs false
 /-! Helper lemmas for `Props/C11.lean`. -/
 namespace JediModel.Call
 
@@ -289,5 +290,186 @@ theorem paramNames_toks (s : Sig) (hpk : ∀ p ∈ s.pk, dunder p.name = false)
       | none => simp [vkToks, paramNamesFrom])
     (by cases vk <;> simp [vkToks, P.tok, PTok.isSlash])
     hpk hko
+
+/-! ## `to_string` -/
+
+theorem ps_po (seg : List P) (rest : List PName) (isPos isKw : Bool) :
+    paramStrings (seg.map (P.pname .posOnly) ++ rest) isPos isKw =
+      seg.map (fun p => STok.p (p.pname .posOnly)) ++ paramStrings rest (isPos || !seg.isEmpty) isKw := by
+  induction seg generalizing isPos with
+  | nil => simp
+  | cons p seg ih =>
+    simp [paramStrings, P.pname, ih]
+
+theorem ps_slash_first (l : List PName) (isKw : Bool) (h : ∀ n ∈ l, n.kind ≠ .posOnly) :
+    paramStrings l true isKw = STok.slash :: paramStrings l false isKw := by
+  cases l with
+  | nil => simp [paramStrings]
+  | cons n rest =>
+    have hn := h n (by simp)
+    simp [paramStrings, hn]
+
+theorem ps_pk (seg : List P) (rest : List PName) (isKw : Bool) :
+    paramStrings (seg.map (P.pname .posOrKw) ++ rest) false isKw =
+      seg.map (fun p => STok.p (p.pname .posOrKw)) ++ paramStrings rest false isKw := by
+  induction seg with
+  | nil => simp
+  | cons p seg ih => simp [paramStrings, P.pname, ih]
+
+theorem ps_ko (seg : List P) (rest : List PName) :
+    paramStrings (seg.map (P.pname .kwOnly) ++ rest) false true =
+      seg.map (fun p => STok.p (p.pname .kwOnly)) ++ paramStrings rest false true := by
+  induction seg with
+  | nil => simp
+  | cons p seg ih => simp [paramStrings, P.pname, ih]
+
+theorem ps_vk (vk : Option P) (isKw : Bool) :
+    paramStrings (vk.map (P.pname .varKw)).toList false isKw =
+      (vk.map (fun p => STok.p (p.pname .varKw))).toList := by
+  cases vk <;> simp [paramStrings, P.pname]
+
+theorem reparse_append (a b : List STok) : reparse (a ++ b) = reparse a ++ reparse b := by
+  induction a with
+  | nil => rfl
+  | cons x a ih => cases x <;> simp [reparse, ih]
+
+theorem reparse_map (k : Kind) (seg : List P) :
+    reparse (seg.map (fun p => STok.p (p.pname k))) = (seg.map P.pub).map (P.tok (stars k)) := by
+  induction seg with
+  | nil => rfl
+  | cons p seg ih =>
+    simp only [List.map_cons, reparse]
+    rw [ih]
+    simp [P.pname, P.pub, P.tok]
+
+/-- `*args`, or the `*` marker `param_strings()` inserts before the first keyword-only parameter -/
+def midSToks (vp : Option P) (ko : List P) : List STok :=
+  match vp with
+  | some p => [STok.p (p.pname .varPos)]
+  | none => if ko.isEmpty then [] else [STok.star]
+
+/-- what `param_strings()` yields on a valid parameter list -/
+theorem paramStrings_params (s : Sig) :
+    paramStrings s.params false false =
+      s.po.map (fun p => STok.p (p.pname .posOnly)) ++ (if s.po.isEmpty then [] else [STok.slash]) ++
+      s.pk.map (fun p => STok.p (p.pname .posOrKw)) ++
+      midSToks s.vp s.ko ++
+      s.ko.map (fun p => STok.p (p.pname .kwOnly)) ++
+      (s.vk.map (fun p => STok.p (p.pname .varKw))).toList := by
+  obtain ⟨po, pk, vp, ko, vk⟩ := s
+  simp only [Sig.params, List.append_assoc]
+  rw [ps_po]
+  have hR : ∀ n ∈ pk.map (P.pname .posOrKw) ++ ((vp.map (P.pname .varPos)).toList ++
+      (ko.map (P.pname .kwOnly) ++ (vk.map (P.pname .varKw)).toList)), n.kind ≠ .posOnly := by
+    intro n hn
+    simp only [List.mem_append, List.mem_map, Option.mem_toList, Option.mem_def, Option.map_eq_some_iff] at hn
+    rcases hn with ⟨p, _, rfl⟩ | ⟨p, _, rfl⟩ | ⟨p, _, rfl⟩ | ⟨p, _, rfl⟩ <;> simp [P.pname]
+  have hrest : paramStrings (pk.map (P.pname .posOrKw) ++ ((vp.map (P.pname .varPos)).toList ++
+      (ko.map (P.pname .kwOnly) ++ (vk.map (P.pname .varKw)).toList))) false false =
+      pk.map (fun p => STok.p (p.pname .posOrKw)) ++
+      (midSToks vp ko ++
+      (ko.map (fun p => STok.p (p.pname .kwOnly)) ++
+      (vk.map (fun p => STok.p (p.pname .varKw))).toList)) := by
+    rw [ps_pk]
+    congr 1
+    cases vp with
+    | some v =>
+      simp only [midSToks, Option.map_some, Option.toList_some, List.singleton_append]
+      simp only [paramStrings, P.pname, decide_true, decide_false, Bool.or_self, Bool.and_self,
+        Bool.false_and, Bool.and_false, if_true, if_false, reduceCtorEq, ne_eq, not_false_eq_true,
+        not_true_eq_false, Bool.not_false, Bool.false_eq_true, List.nil_append]
+      have := ps_ko ko (vk.map (P.pname .varKw)).toList
+      simp only [P.pname] at this
+      rw [this]
+      have := ps_vk vk true
+      simp only [P.pname] at this
+      rw [this]
+    | none =>
+      cases ko with
+      | nil =>
+        have := ps_vk vk false
+        simpa [midSToks] using this
+      | cons k ko =>
+        simp only [midSToks, Option.map_none, Option.toList_none, List.nil_append, List.map_cons, List.cons_append,
+          List.isEmpty_cons, Bool.false_eq_true, if_false, List.singleton_append]
+        simp only [paramStrings, P.pname, decide_true, decide_false, Bool.or_self, Bool.and_self,
+          Bool.false_and, Bool.and_false, Bool.and_true, if_true, if_false, reduceCtorEq, ne_eq, not_false_eq_true,
+          not_true_eq_false, Bool.not_false, Bool.false_eq_true, List.nil_append, List.singleton_append]
+        have := ps_ko ko (vk.map (P.pname .varKw)).toList
+        simp only [P.pname] at this
+        rw [this]
+        have := ps_vk vk true
+        simp only [P.pname] at this
+        rw [this]
+  cases po with
+  | nil => simpa using hrest
+  | cons p po =>
+    simp only [List.isEmpty_cons, Bool.not_false, Bool.or_true, Bool.false_eq_true, if_false]
+    rw [ps_slash_first _ _ hR, hrest]
+    simp
+
+/-! ## `process_params` without forwarding -/
+
+theorem ppScan_po (seg : List P) (rest : List PName) :
+    ppScan (seg.map (P.pname .posOnly) ++ rest) =
+      (seg.map (P.pname .posOnly) ++ (ppScan rest).1, (ppScan rest).2) := by
+  induction seg with
+  | nil => simp
+  | cons p seg ih => simp [ppScan, ih, P.pname]
+
+theorem ppScan_pk (seg : List P) (rest : List PName) :
+    ppScan (seg.map (P.pname .posOrKw) ++ rest) =
+      (seg.map (P.pname .posOrKw) ++ (ppScan rest).1, (ppScan rest).2.1, (ppScan rest).2.2.1,
+        (ppScan rest).2.2.2.1, seg.map P.name ++ (ppScan rest).2.2.2.2) := by
+  induction seg with
+  | nil => simp
+  | cons p seg ih => simp [ppScan, ih, P.pname]
+
+theorem ppScan_ko (seg : List P) (rest : List PName) :
+    ppScan (seg.map (P.pname .kwOnly) ++ rest) =
+      ((ppScan rest).1, (ppScan rest).2.1, seg.map (P.pname .kwOnly) ++ (ppScan rest).2.2.1,
+        (ppScan rest).2.2.2) := by
+  induction seg with
+  | nil => simp
+  | cons p seg ih => simp [ppScan, ih, P.pname]
+
+theorem ppKwOnly_id (ks : List P) (used : List Str)
+    (h1 : ∀ p ∈ ks, p.name ∉ used) (h2 : (ks.map P.name).Nodup) :
+    ppKwOnly (ks.map (P.pname .kwOnly)) used = ks.map (P.pname .kwOnly) := by
+  induction ks generalizing used with
+  | nil => rfl
+  | cons p ks ih =>
+    simp only [List.map_cons, List.nodup_cons, List.mem_map, not_exists, not_and] at h2
+    have hp : used.contains p.name = false := by
+      simpa using h1 p (by simp)
+    simp only [List.map_cons, ppKwOnly, P.pname, hp, Bool.false_eq_true, if_false]
+    congr 1
+    have := ih (p.name :: used) (by
+      intro q hq
+      simp only [List.mem_cons, not_or]
+      exact ⟨fun e => h2.1 q hq e, h1 q (by simp [hq])⟩) h2.2
+    simpa [P.pname] using this
+
+theorem processParams_params (s : Sig) (h : ((s.pk ++ s.ko).map P.name).Nodup) :
+    processParams s.params = s.params := by
+  obtain ⟨po, pk, vp, ko, vk⟩ := s
+  simp only [List.map_append, List.nodup_append, List.mem_map] at h
+  have hko : ppKwOnly (ko.map (P.pname .kwOnly)) (pk.map P.name ++ []) = ko.map (P.pname .kwOnly) := by
+    apply ppKwOnly_id _ _ _ h.2.1
+    intro p hp hm
+    simp only [List.append_nil, List.mem_map] at hm
+    obtain ⟨q, hq, e⟩ := hm
+    exact h.2.2 _ ⟨q, hq, rfl⟩ _ ⟨p, hp, rfl⟩ e
+  have hvk : ppScan (vk.map (P.pname .varKw)).toList = ([], none, [], vk.map (P.pname .varKw), []) := by
+    cases vk <;> simp [ppScan, P.pname]
+  have hvp : ∀ rest, ppScan ((vp.map (P.pname .varPos)).toList ++ rest) =
+      ((ppScan rest).1, (match vp with | some p => some ((ppScan rest).2.1.getD (p.pname .varPos)) | none => (ppScan rest).2.1),
+        (ppScan rest).2.2) := by
+    intro rest
+    cases vp <;> simp [ppScan, P.pname]
+  unfold processParams
+  simp only [Sig.params, List.append_assoc]
+  rw [ppScan_po, ppScan_pk, hvp, ppScan_ko, hvk]
+  cases vp <;> cases vk <;> simp [hko] <;> simpa using hko
 
 end JediModel.Call
